@@ -38,7 +38,7 @@ class CoreWalker(pathwalk.Walker):
         g = self.fb.fn.get(n.get('ck'))
         if g is not None and g.cfg is not None and st.depth < 3 and g.qn in self.inline_names:
             return g
-        return None
+        return super().inline(fn, n, st)  # opt-in: extracted same-class helpers (inline_helpers = True)
 
     def on_inline(self, fn, n, g, st):
         st.events.append(('call', g.qn, n['i'], fn.loc(n)))
@@ -81,6 +81,29 @@ class CoreWalker(pathwalk.Walker):
                 st.events.append(('rel', c['op'], b['v'], truth, fn.text(c['ch'][0])))
         elif c['k'] == 'DeclRefExpr' or c['k'] == 'ImplicitCastExpr':
             st.events.append(('nonzero', truth, fn.text(c['i'])))
+
+
+def with_helpers(fb, f, depth=2):
+    """f and the non-virtual member functions of its own class (and file-local free functions of the same file) it
+    calls, transitively up to `depth`: an extracted helper is part of the function for the structural rules"""
+    out = [f]
+    seen = {f.key}
+    work = [(f, depth)]
+    while work:
+        g, d = work.pop()
+        if d <= 0:
+            continue
+        for n in g.own_nodes():
+            h = fb.fn.get(n.get('ck'))
+            if h is None or h.key in seen or h.cfg is None:
+                continue
+            same_cls = h.cls and h.cls == f.cls and 'virtual' not in h.flags
+            file_local = not h.cls and h.file == f.file and '(anonymous namespace)' in h.qn
+            if same_cls or file_local:
+                seen.add(h.key)
+                out.append(h)
+                work.append((h, d - 1))
+    return out
 
 
 def calls_of(ev, *names):
@@ -579,7 +602,7 @@ def check_node_reuse(ctx, fb, rule, scope=None):
             n += 1
             arg = c['args'][0]
             varying = False
-            for d in f.descendants(arg):
+            for d in f.deep_descendants(arg):  # through reference aliases: auto& cb = callbacks[i]
                 x = f.nodes[d]
                 if x['k'] == 'ArraySubscriptExpr' or (x['k'] == 'CXXOperatorCallExpr' and x.get('op') == '[]') or \
                         (x['k'] == 'UnaryOperator' and x.get('op') in ('++', '--')) or \
@@ -598,7 +621,7 @@ def check_node_reuse(ctx, fb, rule, scope=None):
                            'an object of type %s is linked into a shared core\'s subscriber list through its next field, '
                            'but %s also stores something else in that field: the list is corrupted (subscribers cut off, '
                            'the counter bypassed)' % (t[:100], users[0].qn), 'function: ' + f.full[:300])
-            same = [o for o in sites if o is not c and f.text(o['args'][0]) == f.text(arg)]
+            same = [o for o in sites if o is not c and f.xtext(o['args'][0]) == f.xtext(arg)]
             if not varying and (in_loop or same):
                 ctx.report(rule, key, f.loc(c),
                            'the same callback object (%s) is registered on several shared cores: a shared core links '
@@ -763,3 +786,108 @@ def check_after_release(ctx, fb, rule, scope=None):
                            'already have freed it or moved its value out' % f.loc(d),
                            'function: %s\nreleased object: %s' % (f.full[:300], obj))
     return nsites
+
+
+# ------------------------------------------------------------------------------------------------ R-LOOPCALLER
+
+class _HereWalker(pathwalk.Walker):
+    loop_bound = 1
+    max_paths = 4000
+
+    def inline(self, fn, n, st):
+        g = self.fb.fn.get(n.get('ck'))
+        if g is None or g.cfg is None or st.depth >= 5:
+            return None
+        if g.n in ('Impl', 'Step', 'Noop'):
+            return g
+        # a forwarder: other.Here(caller) of another callback object that is not a core
+        if g.n == 'Here' and 'yaclib::detail::BaseCore' not in self.fb.all_bases(g.cls) and \
+                g.cls != 'yaclib::detail::InlineCore':
+            return g
+        return None
+
+
+def check_loop_caller(ctx, fb, rule, scope=None):
+    """R-LOOPCALLER: detail::Loop calls whatever core a Here() returned with the *returning object* as `caller`, and
+    every core's Here(caller) reads `caller` as a BaseCore / ResultCore (its result, its executor).  So the Here() of
+    a callback object that is NOT derived from BaseCore (events, awaiters, combinator callbacks, drop callbacks) must
+    return nullptr on every path: it resumes its target itself (target.Here(caller) with the real caller) or submits
+    it.  Helpers Impl/Step/Noop and forwarders to another such object's Here are inlined."""
+    n = 0
+    for f in sorted(fb.fn.values(), key=lambda f: f.full):
+        if f.n != 'Here' or 'virtual' not in f.flags or f.cfg is None:
+            continue
+        if scope is not None and not scope(f):
+            continue
+        if 'yaclib::detail::BaseCore' in fb.all_bases(f.cls):
+            continue
+        key = 'R-LOOPCALLER %s::Here' % f.clsq
+        try:
+            res = _HereWalker(fb).run(f)
+        except pathwalk.TooManyPaths as e:
+            ctx.broken('R-LOOPCALLER %s: %s' % (f.full, e))
+        n += 1
+        ctx.instance(rule, key + ' :: ' + f.cls[:120], dict(function=f.full[:160], paths=len(res)))
+        for st, rv in res:
+            if not (rv is not None and rv[0] == 'c' and rv[1] == 0):
+                ctx.report(rule, key, f.where, 'Here() of a callback object that is not a BaseCore can return a core to '
+                           'the running Loop: the Loop will call it with this object as `caller`, and the callee reads '
+                           '`caller` as a BaseCore (executor / result) — type confusion; resume the target directly '
+                           'with the real caller instead', 'instantiation: ' + f.full[:300])
+                break
+    return n
+
+
+# ------------------------------------------------------------------------------------------------ R-MOVEOUT.sites
+
+# functions that may move the stored Result out of a core whose static type does not say "unique"; each has its own
+# guard rule (R-MOVEOUT / R-CONSTOBS / R-DISPATCH)
+MOVE_SITES = {
+    'yaclib::detail::SharedCore::Retire': 'moves only under GetRef() == 1 (R-MOVEOUT)',
+    'yaclib::detail::ResultCore::MoveOrConst': 'the caller selects move by IsFromUnique(Type) (R-CONSTOBS)',
+    'yaclib::detail::ResultCore::Impl': 'moves below the kSharedRefNoFuture threshold only (R-MOVEOUT)',
+    'yaclib::SharedFutureBase::Get': 'rvalue overload, moves only under GetRef() == 1 (R-MOVEOUT)',
+    'yaclib::SharedFutureBase::Touch': 'rvalue overload, moves only under GetRef() == 1 (R-MOVEOUT)',
+}
+
+
+def _static_object_type(f, i):
+    """most derived static type of an object expression (implicit derived-to-base conversions removed)"""
+    n = f.sn(i)
+    while n is not None and n['k'] in ('ImplicitCastExpr', 'ParenExpr') and n.get('ch'):
+        n = f.sn(n['ch'][0])
+    return (n or {}).get('t', '')
+
+
+def check_move_sites(ctx, fb, rule, scope=None):
+    """who-may-move: std::move / std::forward applied to ResultCore::Get() of a core that is not statically a
+    UniqueCore happens only in the frozen, individually guarded functions above; everybody else (the combinator
+    strategies in particular: their InputCore is the common base ResultCore<V,E> as soon as unique and shared inputs
+    are mixed) takes the value through the virtual Retire(), which copies while other holders exist."""
+    n = 0
+    for f in sorted(fb.fn.values(), key=lambda f: f.full):
+        if f.cfg is None or (scope is not None and not scope(f)):
+            continue
+        for m in f.own_nodes():
+            if m['k'] != 'CallExpr' or m.get('cn') not in ('std::move', 'std::forward') or not m.get('args'):
+                continue
+            a = f.sn(m['args'][0])
+            if a is None or a['k'] != 'CXXMemberCallExpr' or a.get('cn') != 'yaclib::detail::ResultCore::Get' or \
+                    a.get('obj') is None:
+                continue
+            if f.cfg.pos_of(m['i']) is None:
+                continue  # discarded branch of this instantiation
+            ot = _static_object_type(f, a['obj'])
+            unique = 'yaclib::detail::UniqueCore<' in ot or 'yaclib::detail::ReadyCore<' in ot or \
+                'yaclib::detail::PromiseType<' in ot and 'Shared' not in ot
+            n += 1
+            key = 'R-MOVEOUT.site %s' % f.qn
+            ctx.instance(rule, key + (' [unique by type]' if unique else ' [guarded site]'),
+                         dict(function=f.full[:160], object_type=ot[:100], at=f.loc(m)))
+            if unique or f.qn in MOVE_SITES:
+                continue
+            ctx.report(rule, key, f.loc(m), 'the stored Result of a core whose static type is %s (it may be a shared '
+                       'core with other observers) is moved out outside the guarded move-out sites: other observers '
+                       'read a moved-from value; take it through Retire()' % (ot[:120] or '?'),
+                       'function: %s\nallowed sites: %s' % (f.full[:300], ', '.join(sorted(MOVE_SITES))))
+    return n
